@@ -410,6 +410,15 @@ func Run(e *core.Env) {
 		if t.Bool("prog.redirect", 1, 4) {
 			// replace one source object by an object we write ourselves
 			src := nodes[t.Draw("prog.redirect.src", len(nodes))].ref
+			if t.Bool("prog.redirect.chain", 1, 2) {
+				// prefer an inner member of a reference chain, if there is one
+				for _, nd := range nodes {
+					if nd.kind == "chain" {
+						src = nd.ref
+						break
+					}
+				}
+			}
 			nr := w.Alloc()
 			val := pdf.Dict{"Redirected": pdf.Boolean(true)}
 			if werr = w.Put(nr, val); werr != nil {
